@@ -357,6 +357,8 @@ def compare_level(ctx, spec, level, real, model):
 def oracle(case, grid=None):
     """the property statement on the real code only (all indices of all levels of the grid described by case["spec"])"""
     spec = case["spec"]
+    if case.get("aspect") == "amend":
+        return oracle_amend(case)
     win = case.get("win")
     if grid is None:
         try:
@@ -449,6 +451,50 @@ def _oracle_levels(spec, grid, d, nd, win):
             if (vc > vp * (1 + 1e-9)).any():
                 return (f"level {level}: the children of a pixel have more volume than the pixel",
                         dict(sig, what="volume-children"))
+    return None
+
+
+def oracle_amend(case):
+    """`Grid.amend`: a grid built with depth d-1 and amended by the last level is the grid built with depth d"""
+    spec = case["spec"]
+    inner = spec["grid"] if spec["kind"] == "flat" else spec
+    if inner["kind"] not in ("regular", "open", "hp") or depth_of(spec) < 1:
+        return None
+    d = depth_of(spec)
+    sig = dict(kind=spec["kind"], what="amend")
+    try:
+        full = build(spec)
+        if inner["kind"] == "hp":
+            short = dict(inner, depth=d - 1)
+            sg = build(short if spec["kind"] != "flat" else dict(spec, grid=short))
+            am = sg.amend(added_depth=1) if spec["kind"] != "flat" else sg.amend((4,))
+        else:
+            short = dict(inner, splits=inner["splits"][:-1])
+            if inner["kind"] == "open":
+                short["padding"] = inner["padding"][:-1]
+            sg = build(short if spec["kind"] != "flat" else dict(spec, grid=short))
+            if inner["kind"] == "open":
+                am = sg.amend((tuple(inner["splits"][-1]),), (tuple(inner["padding"][-1]),)) if spec["kind"] != "flat" else None
+            else:
+                am = sg.amend((tuple(inner["splits"][-1]),))
+        if am is None:
+            return None
+        if am.depth != full.depth:
+            return (f"amend: depth {am.depth} != {full.depth}", sig)
+        for lvl in (d - 1, d):
+            ga, gb = am.at(lvl), full.at(lvl)
+            if [int(x) for x in ga.shape] != [int(x) for x in gb.shape]:
+                return (f"amend: level {lvl} has shape {list(ga.shape)}, the directly built grid {list(gb.shape)}", sig)
+        idx = np.asarray(full.at(d - 1).refined_indices()).reshape(int(full.at(d - 1).ndim), -1)
+        ca = np.asarray(am.at(d - 1).children(padded(idx)))
+        cb = np.asarray(full.at(d - 1).children(padded(idx)))
+        if not np.array_equal(ca, cb):
+            return ("amend: children on the amended level differ from the directly built grid", sig)
+        cidx = allidx(full.at(d).shape)
+        if not np.array_equal(np.asarray(am.at(d).parent(padded(cidx))), np.asarray(full.at(d).parent(padded(cidx)))):
+            return ("amend: parents on the new level differ from the directly built grid", sig)
+    except Exception as e:
+        return (f"amend raised {type(e).__name__}: {str(e)[:100]}", dict(sig, error=type(e).__name__))
     return None
 
 
@@ -741,6 +787,11 @@ def check_levels(ctx, j, outs):
     r = oracle(dict(spec=spec, win=j.win), grid=j.grid)
     if r:
         ctx.counterexample(dict(spec=spec, win=j.win), *r)
+    if d >= 1 and spec["kind"] in ("regular", "open", "hp", "flat"):
+        r = oracle_amend(dict(spec=spec))
+        ctx.stat("amend")
+        if r:
+            ctx.counterexample(dict(spec=spec, aspect="amend"), *r)
 
 
 def check_specs(ctx, specs):
